@@ -404,6 +404,8 @@ def decl(R, P):
         okf = False
         for r_ in f.returns():
             v = RU.uncast(f, r_.node["a"][0]) if r_.node["a"] else None
+            if v is not None and v.get("k") == "var":
+                v = RU.uncast(f, RU.origin(f, v)) or v  # (the result of an expanded `log and raise` helper)
             if v is not None and v.get("k") == "call" and v.get("callee") == "aws_raise_error":
                 for c, pol, b in RU.guards(f, r_):
                     t = RU.call_test(f, c, pol)
